@@ -7,26 +7,41 @@ Sub-checks
   switch   Switch with 1-4 cases (list and dict form), key specs = small combinator trees, value specs
            = logging probes, with and without default
   checkkw  Check with every combination of type / instance_of / equal_to / one_of / validate / default /
-           sub-spec over typed targets
+           sub-spec over typed targets; one_of spelled as list / tuple / set / frozenset / dict / dict.keys(); classes
+           that are iterable themselves (Enum classes, a class with an iterable metaclass) as type / instance_of
+  checkreuse  ONE Check object whose one_of (and optionally type / instance_of / validate) was given as a one-shot
+           iterable (iter([...]) / generator), evaluated on 2-4 targets in a row: every evaluation decides like the
+           first one would
+  reuse    a combinator kept in a variable and re-used as an operand still denotes its own expression
 
-Oracle: refbool() - Python's own and/or/not over the atoms' truth, short-circuit order observed through logs.
+Oracle: refbool() - Python's own and/or/not over the atoms' truth, short-circuit order observed through logs.  A
+comparison that Python cannot evaluate ('a' > 0 raises TypeError) "is not true": the atom rejects, with MatchError.
 """
+import enum
+
 from hypothesis import strategies as st
 
 import glom
 from glom import (Match, MatchError, GlomError, M, And, Or, Not, T, Val, Switch, Check, CheckError,
                   PathAccessError)
 
-from ..runner import Sub, Mismatch
+from ..runner import Sub, Mismatch, HarnessBug
 from .. import targets as tg
 
 PROPERTY = 'C10'
 RULE = ('bool: combinator trees of depth <= 4 over <= 6 atoms, built by constructor (And/Or with default) or by the '
         '& | ~ operators, on targets drawn from a pool chosen so that atoms take both truth values; '
-        'switch: 1-4 cases with logging value probes; checkkw: all keyword combinations of Check. '
+        'switch: 1-4 cases with logging value probes; checkkw: all keyword combinations of Check, one_of in six container '
+        'spellings, iterable classes as type arguments; checkreuse: one Check built from one-shot iterables, evaluated 2-4 times. '
+        'Constructed classes: an ordering comparison Python cannot evaluate below Or / Not / a default / a Switch key; '
+        'a one-element unindexable one_of that rejects without default; a bare Enum class as type / instance_of. '
         'Non-trivial = >= 2 combinators, or an observed short-circuit (a child that must not run), or a default used.')
 ASSUMPTIONS = [
-    'atom truth is computed with the Python comparison itself; a comparison that raises must raise the same class from glom',
+    'atom truth is computed with the Python comparison itself; a comparison that raises is "not true": the atom rejects with '
+    'MatchError, so Or tries the next child, Not passes, defaults apply and Switch goes on to the next case',
+    'Check(one_of=C) on a target for which Python\'s own `target in C` raises (unhashable target against a set / dict): both '
+    'readings are accepted - a failed condition (CheckError / default, the statement) or the exception of `in` (the docstring '
+    'defines one_of by "in") - nothing else (class membership-raises)',
     'a failing T access inside a tree counts as "did not pass" for an enclosing Or/Not/Switch key and surfaces as PathAccessError at the root',
     'a validator that raises counts as a failed check (Check docstring); Not has no default',
 ]
@@ -153,11 +168,57 @@ def ops_mode_ok(t):
     return t[0] in ('m', 'mt', 'mm', 'M', 'and', 'or', 'not')
 
 
+# (target, operand) pairs for which Python cannot evaluate an ordering comparison (TypeError)
+INCOMPARABLE = [(['s', 'a'], ['i', 0]), (['s', ''], ['i', 2]), (['i', 1], ['s', 'a']), (['i', 0], ['s', 'a']),
+                (['none'], ['i', 1]), (['dict', [['k', ['i', 1]]]], ['i', 0]), (['list', []], ['i', 1]), (['f', 1.5], ['s', 'a'])]
+ORDERING = ['>', '<', '>=', '<=']
+
+
+def gen_incomparable_atom(draw):
+    target, operand = draw(st.sampled_from(INCOMPARABLE))
+    return target, [draw(st.sampled_from(['m', 'm', 'rm'])), draw(st.sampled_from(ORDERING)), operand]
+
+
+def gen_incomparable(draw, counter):
+    """constructed class: an ordering comparison that Python cannot evaluate, below something that can react to a
+    rejection (Or with a later child, Not, And / Or with a default) or bare (for Match(default=)).  Every shape is
+    buildable by constructor and by operators (left operands are M expressions / combinators)."""
+    target, atom = gen_incomparable_atom(draw)
+    dflt = lambda: draw(st.sampled_from([['lit', ['s', 'dflt']], ['T'], ['lit', ['none']], ['list-T']]))
+    shape = draw(st.sampled_from(['or-next', 'or-next', 'not', 'and-default', 'or-default', 'nested', 'bare', 'not-not']))
+    if shape == 'or-next':
+        kids = [atom] + [gen_atom(draw, counter) for _ in range(draw(st.integers(1, 2)))]
+        return ['or', kids], target
+    if shape == 'not':
+        return ['not', atom], target
+    if shape == 'not-not':
+        return ['not', ['not', atom]], target
+    if shape == 'and-default':
+        kids = [['M'], atom] if draw(st.booleans()) else [atom]
+        return ['and', kids, dflt()], target
+    if shape == 'or-default':
+        kids = [atom, ['m', '==', ['s', 'zzz']]] if draw(st.booleans()) else [atom]
+        return ['or', kids, dflt()], target
+    if shape == 'nested':
+        inner = ['or', [atom, ['type', 'object']]]
+        return ['and', [inner, draw(st.sampled_from([['type', 'object'], ['val', ['i', 7]], ['not', atom]]))]], target
+    return atom, target
+
+
 def gen_bool(draw):
     counter = [0]
-    ops_mode = draw(st.booleans())
-    tree = gen_tree(draw, draw(st.integers(1, 4)), counter, ops_mode)
-    return {'tree': tree, 'target': draw(st.sampled_from(TARGETS)), 'build': 'ops' if ops_mode else 'ctor'}
+    if draw(st.integers(0, 7)) == 0:
+        tree, target = gen_incomparable(draw, counter)
+        r = {'tree': tree, 'target': target, 'build': draw(st.sampled_from(['ctor', 'ops']))}
+    else:
+        ops_mode = draw(st.booleans())
+        tree = gen_tree(draw, draw(st.integers(1, 4)), counter, ops_mode)
+        r = {'tree': tree, 'target': draw(st.sampled_from(TARGETS)), 'build': 'ops' if ops_mode else 'ctor'}
+    # Match(tree, default=...): a rejection of the whole tree yields the default
+    md = draw(st.sampled_from([None, None, None, None, ['lit', ['s', 'mdflt']], ['T']]))
+    if md is not None:
+        r['mdefault'] = md
+    return r
 
 
 def build_default(d):
@@ -237,35 +298,34 @@ class Rej(Exception):
         self.why, self.access = why, access
 
 
-class RefRaise(Exception):
-    def __init__(self, exc):
-        Exception.__init__(self, exc)
-        self.exc = exc
-
-
-def ref_cmp(lhs, op, v):
+def ref_cmp(lhs, op, v, notes=None):
+    """"passes exactly when the Python comparison ... is true": a comparison that raises is not true, it rejects (and
+    "every rejection by these combinators is a MatchError").  notes records that it happened (class label)."""
     try:
         ok = {'==': lambda: lhs == v, '!=': lambda: lhs != v, '>': lambda: lhs > v, '<': lambda: lhs < v,
               '>=': lambda: lhs >= v, '<=': lambda: lhs <= v}[op]()
     except Exception as e:
-        raise RefRaise(e)
+        if notes is not None:
+            notes.append(('cmp-raises', type(e).__name__))
+        raise Rej('cmp-raises')
     return ok
 
 
 MIRROR = {'==': '==', '!=': '!=', '>': '<', '<': '>', '>=': '<=', '<=': '>='}
 
 
-def refbool(t, target, log):
-    """value the tree yields, or Rej; log receives the predicates that must run, in order"""
+def refbool(t, target, log, notes=None):
+    """value the tree yields, or Rej; log receives the predicates that must run, in order; notes (optional list)
+    receives an entry for every comparison that Python could not evaluate"""
     tag = t[0]
     if tag == 'm':
-        if ref_cmp(target, t[1], tg.build(t[2]).obj):
+        if ref_cmp(target, t[1], tg.build(t[2]).obj, notes):
             return target
         raise Rej('cmp')
     if tag == 'rm':
         # c op M  is the Python expression  c op target
         v = tg.build(t[2]).obj
-        if ref_cmp(v, t[1], target):
+        if ref_cmp(v, t[1], target, notes):
             return target
         raise Rej('cmp')
     if tag in ('mt', 'MT', 't'):
@@ -279,7 +339,7 @@ def refbool(t, target, log):
             if sub:
                 return target
             raise Rej('falsy')
-        if ref_cmp(sub, t[2], tg.build(t[3]).obj):
+        if ref_cmp(sub, t[2], tg.build(t[3]).obj, notes):
             return target
         raise Rej('cmp')
     if tag == 'mm':
@@ -292,7 +352,7 @@ def refbool(t, target, log):
                     vals.append(target[x])
                 except (KeyError, IndexError, TypeError):
                     raise Rej('access', True)
-        if ref_cmp(vals[0], t[2], vals[1]):
+        if ref_cmp(vals[0], t[2], vals[1], notes):
             return target
         raise Rej('cmp')
     if tag == 'M':
@@ -318,7 +378,7 @@ def refbool(t, target, log):
         raise Rej('access', True)
     if tag == 'not':
         try:
-            refbool(t[1], target, log)
+            refbool(t[1], target, log, notes)
         except Rej:
             return target
         raise Rej('not')
@@ -326,12 +386,12 @@ def refbool(t, target, log):
         if tag == 'and':
             res = target
             for c in t[1]:
-                res = refbool(c, target, log)
+                res = refbool(c, target, log, notes)
             return res
         last = None
         for c in t[1]:
             try:
-                return refbool(c, target, log)      # first passing child wins, later children never run
+                return refbool(c, target, log, notes)      # first passing child wins, later children never run
             except Rej as r:
                 last = r
         raise last
@@ -377,13 +437,15 @@ def check_bool(recipe, ctx):
     tree = recipe['tree']
     target = tg.build(recipe['target']).obj
     snap = tg.snapshot(target)
-    rlog = []
+    rlog, notes = [], []
+    mdefault = recipe.get('mdefault')
     try:
-        exp = ('ok', refbool(tree, target, rlog))
+        exp = ('ok', refbool(tree, target, rlog, notes))
     except Rej as r:
         exp = ('rej', r)
-    except RefRaise as rr:
-        exp = ('raise', rr.exc)
+        if mdefault is not None:
+            # Match(pattern, default=d): "the default to return if the match fails"
+            exp = ('ok', ref_default(mdefault, target))
     glog = []
     try:
         spec = build_tree(tree, glog, recipe['build'])
@@ -396,14 +458,21 @@ def check_bool(recipe, ctx):
     short = len(rlog) < count_preds(tree)
     if short:
         ctx.label('short-circuit')
-    ctx.nontrivial(ncomb >= 2 or short or 'dflt' in repr(tree))
-    where = 'spec=%r target=%r' % (spec, target)
-    got = run(target, Match(spec))
-    if exp[0] == 'raise':
-        if got[0] != 'raise' or not isinstance(got[1], type(exp[1])):
-            raise Mismatch('comparison-error', '%s: the Python comparison raises %r; glom: %r' % (where, exp[1], got))
-        ctx.outcome('raise')
-        return
+    if notes:
+        # an atom whose Python comparison raises; "recovered" = the whole expression is true all the same, i.e. an Or went
+        # on to a later child, a Not inverted the rejection or a default (And / Or / Match) replaced it
+        ctx.label('cmp-raises')
+        if exp[0] == 'ok':
+            ctx.label('cmp-raises-recovered')
+    if mdefault is not None:
+        ctx.label('match-default')
+    ctx.nontrivial(ncomb >= 2 or short or 'dflt' in repr(tree) or (mdefault is not None and exp[0] == 'ok'))
+    if mdefault is None:
+        mspec = Match(spec)
+    else:
+        mspec = Match(spec, default=build_default(mdefault))
+    where = 'spec=%r target=%r' % (mspec if mdefault is not None else spec, target)
+    got = run(target, mspec)
     if got[0] == 'raise':
         raise Mismatch('unexpected-exception-class', '%s: expected %s, glom raised %s: %r'
                        % (where, exp[0], type(got[1]).__name__, got[1]))
@@ -461,8 +530,6 @@ def check_reuse(recipe, ctx):
             return ('ok', refbool(tree, t, []))
         except Rej:
             return ('rej',)
-        except RefRaise:
-            return ('raise',)
     targets = [tg.build(t).obj for t in recipe['targets']]
     specs = []
     for op, leaf_r in recipe['derived']:
@@ -493,35 +560,39 @@ def gen_switch(draw):
         key = gen_tree(draw, draw(st.integers(0, 2)), counter, False)
         val = ['probe', i, draw(st.integers(0, 9)) == 0]
         cases.append([key, val])
-    return {'cases': cases, 'form': draw(st.sampled_from(['list', 'dict'])),
-            'default': draw(st.sampled_from([None, None, ['lit', ['s', 'dflt']], ['T'], ['list-T']])),
-            'target': draw(st.sampled_from(TARGETS))}
+    r = {'cases': cases, 'form': draw(st.sampled_from(['list', 'dict'])),
+         'default': draw(st.sampled_from([None, None, ['lit', ['s', 'dflt']], ['T'], ['list-T']])),
+         'target': draw(st.sampled_from(TARGETS))}
+    if draw(st.integers(0, 5)) == 0:
+        # constructed class: the key spec of an early case is a comparison Python cannot evaluate on this target: that
+        # case does not pass (Switch goes on to the next one), or passes when the key is its negation
+        r['target'], atom = gen_incomparable_atom(draw)
+        i = draw(st.integers(0, min(1, n - 1)))
+        cases[i][0] = draw(st.sampled_from([atom, atom, ['not', atom], ['or', [atom, ['type', 'str']]]]))
+    return r
 
 
 def check_switch(recipe, ctx):
     target = tg.build(recipe['target']).obj
-    rlog, glog = [], []
-    # reference
+    rlog, glog, notes = [], [], []
+    # reference: "evaluates only the value spec of the first case whose key spec passes"
     exp = None
-    try:
-        for key, val in recipe['cases']:
-            try:
-                refbool(key, target, rlog)
-            except Rej:
-                continue
-            rlog.append(('probe', val[1]))
-            if val[2]:
-                exp = ('rej', 'value spec failed')
-            else:
-                exp = ('ok', ('value-of', val[1]))
-            break
+    for key, val in recipe['cases']:
+        try:
+            refbool(key, target, rlog, notes)
+        except Rej:
+            continue
+        rlog.append(('probe', val[1]))
+        if val[2]:
+            exp = ('rej', 'value spec failed')
         else:
-            if recipe['default'] is not None:
-                exp = ('ok', ref_default(recipe['default'], target))
-            else:
-                exp = ('rej', 'no case')
-    except RefRaise as rr:
-        exp = ('raise', rr.exc)
+            exp = ('ok', ('value-of', val[1]))
+        break
+    else:
+        if recipe['default'] is not None:
+            exp = ('ok', ref_default(recipe['default'], target))
+        else:
+            exp = ('rej', 'no case')
     built = []
     for key, val in recipe['cases']:
         built.append((build_tree(key, glog, 'ctor'), Probe(val[1], glog, val[2])))
@@ -538,13 +609,14 @@ def check_switch(recipe, ctx):
         kw['default'] = build_default(recipe['default'])
     spec = Switch(cases, **kw)
     ctx.label('exp-' + exp[0], 'form-' + recipe['form'], 'default' if kw else 'no-default')
+    if notes:
+        # a key spec whose comparison Python cannot evaluate was reached; "recovered" = a case / the default was chosen all the same
+        ctx.label('cmp-raises')
+        if exp[0] == 'ok':
+            ctx.label('cmp-raises-recovered')
     ctx.nontrivial(len(recipe['cases']) >= 2)
     where = 'spec=%r target=%r' % (spec, target)
     got = run(target, Match(spec))
-    if exp[0] == 'raise':
-        if got[0] != 'raise' or not isinstance(got[1], type(exp[1])):
-            raise Mismatch('comparison-error', '%s: comparison raises %r; glom: %r' % (where, exp[1], got))
-        return
     if got[0] == 'raise':
         raise Mismatch('unexpected-exception-class', '%s: %r' % (where, got[1]))
     if exp[0] == 'ok':
@@ -581,100 +653,278 @@ VALIDATORS = {'is_pos': lambda t: isinstance(t, (int, float)) and t > 0, 'is_sma
               # a partial validator: raises TypeError on targets that cannot be compared with 0 ("If one or more return
               # False or raise an exception, the Check will fail")
               'raw_pos': lambda t: t > 0}
+
+
+class Color(enum.Enum):
+    RED = 'r'
+    BLUE = 'b'
+
+
+class Level(enum.IntEnum):
+    """members are ints as well: isinstance(Level.LOW, int), Level.LOW == 1, type(Level.LOW) is Level"""
+    LOW = 1
+    HIGH = 5
+
+
+class _IterableMeta(type):
+    def __iter__(cls):
+        return iter(())
+
+
+class Shelf(_IterableMeta('ShelfBase', (object,), {})):
+    """a class that is iterable itself (iterable metaclass) without being an Enum"""
+    def __repr__(self):
+        return 'Shelf()'
+
+
+# classes that are iterable themselves: "a type or sequence of types" - each of them is ONE type
+ITERABLE_CLASSES = {'Color': Color, 'Level': Level, 'Shelf': Shelf}
+CHECK_TYPES = dict(TYPES, **ITERABLE_CLASSES)
+SPECIAL_TARGETS = [['enum', 'Color', 'RED'], ['enum', 'Level', 'LOW'], ['enum', 'Level', 'HIGH'], ['inst', 'Shelf']]
 CHECK_TARGETS = [['i', 0], ['i', 1], ['i', 5], ['s', 'a'], ['s', ''], ['b', True], ['f', 1.0], ['none'],
-                 ['dict', [['k', ['i', 1]]]], ['dict', [['k', ['s', 'a']]]], ['list', [['i', 1]]]]
+                 ['dict', [['k', ['i', 1]]]], ['dict', [['k', ['s', 'a']]]], ['list', [['i', 1]]]] + SPECIAL_TARGETS
+ONE_OF_VALUES = [['i', 1], ['i', 5], ['s', 'a'], ['none']]
+# "one_of: an iterable of values": containers that can be iterated again and again ...
+ONE_OF_CONTAINERS = ['list', 'tuple', 'set', 'frozenset', 'dict', 'keys']
+UNINDEXABLE = ('set', 'frozenset', 'dict', 'keys')
+# ... and one-shot iterables (sub-check checkreuse)
+ONE_SHOT = ['iter', 'gen']
+TYPE_POOL = ['int', 'str', 'bool', 'float', 'int', 'str', 'Color', 'Level', 'Shelf']
+INSTANCE_POOL = ['int', 'str', 'object', 'float', 'int', 'object', 'Color', 'Level', 'Shelf']
 
 
-def gen_check(draw):
+def build_ctarget(r):
+    if r[0] == 'enum':
+        return ITERABLE_CLASSES[r[1]][r[2]]
+    if r[0] == 'inst':
+        return ITERABLE_CLASSES[r[1]]()
+    return tg.build(r).obj
+
+
+def spell_one_of(vals, how):
+    vals = list(vals)
+    if how in (None, 'list'):
+        return vals
+    if how == 'tuple':
+        return tuple(vals)
+    if how == 'set':
+        return set(vals)
+    if how == 'frozenset':
+        return frozenset(vals)
+    if how == 'dict':
+        return dict((v, 'x') for v in vals)
+    if how == 'keys':
+        return dict((v, 'x') for v in vals).keys()
+    if how == 'iter':
+        return iter(vals)
+    if how == 'gen':
+        return (v for v in vals)
+    raise HarnessBug('unknown one_of spelling %r' % (how,))
+
+
+def one_of_text(vals, how):
+    body = ', '.join(repr(v) for v in vals)
+    return {None: '[%s]', 'list': '[%s]', 'tuple': 'tuple([%s])', 'set': 'set([%s])', 'frozenset': 'frozenset([%s])',
+            'dict': 'dict.fromkeys([%s])', 'keys': 'dict.fromkeys([%s]).keys()', 'iter': 'iter([%s])',
+            'gen': '(v for v in [%s])'}[how] % body
+
+
+def spell_types(ts, how, single_bare=True):
+    """how: 'list' | 'tuple' | 'iter' (a one-shot iterator); a single class is passed bare unless it is to be an iterator"""
+    if how == 'iter':
+        return iter(list(ts))
+    if len(ts) == 1 and single_bare:
+        return ts[0]
+    return list(ts) if how == 'list' else tuple(ts)
+
+
+def build_check(recipe, log):
+    """(Check object, source-like text without memory addresses); construction errors propagate"""
+    kw, txt = {}, []
+    if recipe['type']:
+        ts = [CHECK_TYPES[n] for n in recipe['type']]
+        how = recipe.get('type_as', 'list')
+        kw['type'] = spell_types(ts, how)
+        txt.append('type=%s' % ('iter(%r)' % (recipe['type'],) if how == 'iter' else
+                                recipe['type'][0] if len(ts) == 1 else '%s(%r)' % (how, recipe['type'])))
+    if recipe['instance_of']:
+        ts = [CHECK_TYPES[n] for n in recipe['instance_of']]
+        how = recipe.get('instance_of_as', 'tuple')
+        kw['instance_of'] = spell_types(ts, how)
+        txt.append('instance_of=%s' % ('iter(%r)' % (recipe['instance_of'],) if how == 'iter' else
+                                       recipe['instance_of'][0] if len(ts) == 1 else '%s(%r)' % (how, recipe['instance_of'])))
+    if recipe['equal_to'] is not None:
+        kw['equal_to'] = tg.build(recipe['equal_to']).obj
+        txt.append('equal_to=%r' % (kw['equal_to'],))
+    if recipe['one_of'] is not None:
+        vals = [tg.build(x).obj for x in recipe['one_of']]
+        kw['one_of'] = spell_one_of(vals, recipe.get('one_of_as'))
+        txt.append('one_of=%s' % one_of_text(vals, recipe.get('one_of_as')))
+    if recipe['validate']:
+        vs = [Validator(n, VALIDATORS[n], log) for n in recipe['validate']]
+        if recipe.get('validate_as') == 'iter':
+            kw['validate'] = iter(vs)
+            txt.append('validate=iter(%r)' % (vs,))
+        else:
+            kw['validate'] = vs[0] if (len(vs) == 1 and recipe['validate_single']) else vs
+            txt.append('validate=%r' % (kw['validate'],))
+    if recipe['default'] is not None:
+        kw['default'] = build_default(recipe['default'])
+        txt.append('default=%r' % (kw['default'],))
+    args = () if recipe['sub'] is None else (T[recipe['sub']],)
+    text = 'Check(%s)' % ', '.join([repr(a) for a in args] + txt)
+    return Check(*args, **kw), kw, text
+
+
+def gen_check_base(draw, type_pool=TYPE_POOL, instance_pool=INSTANCE_POOL):
     opt = lambda s: draw(st.one_of(st.none(), s))
     r = {
-        'type': opt(st.lists(st.sampled_from(['int', 'str', 'bool', 'float']), min_size=1, max_size=2, unique=True)),
-        'instance_of': opt(st.lists(st.sampled_from(['int', 'str', 'object', 'float']), min_size=1, max_size=2, unique=True)),
+        'type': opt(st.lists(st.sampled_from(type_pool), min_size=1, max_size=2, unique=True)),
+        'instance_of': opt(st.lists(st.sampled_from(instance_pool), min_size=1, max_size=2, unique=True)),
         'equal_to': opt(st.sampled_from([['i', 1], ['s', 'a'], ['f', 1.0]])),
-        'one_of': opt(st.lists(st.sampled_from([['i', 1], ['i', 5], ['s', 'a'], ['none']]), min_size=1, max_size=3, unique_by=repr)),
+        'one_of': opt(st.lists(st.sampled_from(ONE_OF_VALUES), min_size=1, max_size=3, unique_by=repr)),
         'validate': opt(st.lists(st.sampled_from(sorted(VALIDATORS)), min_size=1, max_size=2, unique=True)),
         'validate_single': draw(st.booleans()),
         'instance_of_as': draw(st.sampled_from(['tuple', 'tuple', 'list'])),      # "a type or sequence of types"
         'default': draw(st.sampled_from([None, None, ['lit', ['s', 'dflt']], ['T'], ['list-T'], ['lit', ['none']]])),
         'sub': draw(st.sampled_from([None, None, 'k'])),
-        'target': draw(st.sampled_from(CHECK_TARGETS)),
     }
     if r['equal_to'] is not None:
         r['one_of'] = None
     return r
 
 
-def check_checkkw(recipe, ctx):
-    target = tg.build(recipe['target']).obj
-    log = []
-    kw = {}
-    if recipe['type']:
-        ts = [TYPES[n] for n in recipe['type']]
-        kw['type'] = ts[0] if len(ts) == 1 else ts
-    if recipe['instance_of']:
-        ts = [TYPES[n] for n in recipe['instance_of']]
-        kw['instance_of'] = ts[0] if len(ts) == 1 else (list(ts) if recipe.get('instance_of_as') == 'list' else tuple(ts))
-    if recipe['equal_to'] is not None:
-        kw['equal_to'] = tg.build(recipe['equal_to']).obj
-    if recipe['one_of'] is not None:
-        kw['one_of'] = [tg.build(x).obj for x in recipe['one_of']]
-    if recipe['validate']:
-        vs = [Validator(n, VALIDATORS[n], log) for n in recipe['validate']]
-        kw['validate'] = vs[0] if (len(vs) == 1 and recipe['validate_single']) else vs
-    if recipe['default'] is not None:
-        kw['default'] = build_default(recipe['default'])
-    args = () if recipe['sub'] is None else (T[recipe['sub']],)
-    try:
-        spec = Check(*args, **kw)
-    except Exception as e:
-        raise Mismatch('check-construction', 'Check(%r, **%r) raised %r' % (args, kw, e))
-    where = 'spec=%r target=%r' % (spec, target)
-    # reference
+def gen_check(draw):
+    r = gen_check_base(draw)
+    r['one_of_as'] = draw(st.sampled_from(ONE_OF_CONTAINERS))
+    r['targets'] = [draw(st.sampled_from(CHECK_TARGETS))]
+    forced = draw(st.integers(0, 11))
+    if forced == 5:        # (not 0 / 11: Hypothesis draws the bounds of a range more often than the rest)
+        # constructed class: a container with exactly one value that cannot be indexed, no default (so that a rejection
+        # has to be reported by CheckError)
+        r['equal_to'] = None
+        r['one_of'] = [draw(st.sampled_from(ONE_OF_VALUES))]
+        r['one_of_as'] = draw(st.sampled_from(UNINDEXABLE))
+        r['default'] = None
+        if draw(st.booleans()):
+            r['type'] = r['instance_of'] = r['validate'] = None
+    elif forced in (6, 7):
+        # constructed class: ONE class that is iterable itself, given bare, with instances and non-instances as targets
+        which = draw(st.sampled_from(['type', 'instance_of']))
+        name = draw(st.sampled_from(sorted(ITERABLE_CLASSES)))
+        r[which] = [name]
+        if draw(st.booleans()):
+            r['type' if which == 'instance_of' else 'instance_of'] = None
+        if draw(st.booleans()):
+            r['targets'] = [draw(st.sampled_from(SPECIAL_TARGETS))]
+    if draw(st.integers(0, 5)) == 0:
+        r['targets'].append(draw(st.sampled_from(CHECK_TARGETS)))      # the same Check object once more
+    return r
+
+
+def gen_checkreuse(draw):
+    """ONE Check built from one-shot iterables, evaluated several times; about half of the targets are values listed in
+    one_of (as the sub-spec's result when there is a sub-spec), so that later evaluations have something to accept"""
+    maybe = lambda s: draw(s) if draw(st.integers(0, 3)) == 0 else None
+    values = draw(st.lists(st.sampled_from(ONE_OF_VALUES), min_size=1, max_size=3, unique_by=repr))
+    r = {
+        'type': maybe(st.lists(st.sampled_from(['int', 'str', 'bool']), min_size=1, max_size=2, unique=True)),
+        'instance_of': maybe(st.lists(st.sampled_from(['int', 'str', 'object']), min_size=1, max_size=2, unique=True)),
+        'equal_to': None,
+        'one_of': values,
+        'one_of_as': draw(st.sampled_from(ONE_SHOT)),
+        'validate': maybe(st.lists(st.sampled_from(sorted(VALIDATORS)), min_size=1, max_size=2, unique=True)),
+        'validate_single': False,
+        'default': draw(st.sampled_from([None, None, ['lit', ['s', 'dflt']], ['T'], ['lit', ['none']]])),
+        'sub': draw(st.sampled_from([None, None, None, 'k'])),
+    }
+    for k in ('type_as', 'instance_of_as', 'validate_as'):
+        r[k] = draw(st.sampled_from(['iter', 'list']))
+    targets = []
+    for _ in range(draw(st.integers(2, 4))):
+        if draw(st.booleans()):
+            v = draw(st.sampled_from(values))
+            targets.append(v if r['sub'] is None else ['dict', [['k', v]]])
+        else:
+            targets.append(draw(st.sampled_from(CHECK_TARGETS)))
+    r['targets'] = targets
+    return r
+
+
+def ref_check(recipe, target):
+    """the conditions of the docstring on one target: {'access': bool, 'sub': value, 'failed': [...], 'member_exc': exc|None,
+    'validator_raised': bool}"""
+    out = {'access': True, 'sub': None, 'failed': [], 'member_exc': None, 'validator_raised': False}
     try:
         sub = target if recipe['sub'] is None else target[recipe['sub']]
-        access_ok = True
     except (KeyError, IndexError, TypeError):
-        access_ok = False
-    failed = []
-    if access_ok:
-        if recipe['type'] and type(sub) not in [TYPES[n] for n in recipe['type']]:
-            failed.append('type')
-        vals = None
-        if recipe['equal_to'] is not None:
-            vals = [tg.build(recipe['equal_to']).obj]
-        elif recipe['one_of'] is not None:
-            vals = [tg.build(x).obj for x in recipe['one_of']]
-        if vals is not None and sub not in vals:
-            failed.append('value')
-        if recipe['validate']:
-            for n in recipe['validate']:
-                try:
-                    ok_ = VALIDATORS[n](sub)
-                except Exception:
-                    ok_ = False
-                    ctx.label('validator-raises')
-                if not ok_:
-                    failed.append('validate:' + n)
-        elif not kw or set(kw) <= {'default'}:
-            if not sub:
-                failed.append('truthy')
-        if recipe['instance_of'] and not isinstance(sub, tuple(TYPES[n] for n in recipe['instance_of'])):
-            failed.append('instance_of')
-    ctx.label('pass' if access_ok and not failed else ('fail-%d' % min(len(failed), 3) if access_ok else 'access-fail'),
-              'default' if recipe['default'] is not None else 'no-default')
-    ctx.nontrivial(len([k for k in kw if k != 'default']) >= 2 or (failed and recipe['default'] is not None))
+        out['access'] = False
+        return out
+    out['sub'] = sub
+    failed = out['failed']
+    # "type: a type or sequence of types to be checked for exact match"
+    if recipe['type'] and type(sub) not in [CHECK_TYPES[n] for n in recipe['type']]:
+        failed.append('type')
+    # "equal_to: a value to be checked for equality match"; "one_of: an iterable of values, any of which can match ("in")"
+    vals = None
+    if recipe['equal_to'] is not None:
+        vals = [tg.build(recipe['equal_to']).obj]
+    elif recipe['one_of'] is not None:
+        vals = [tg.build(x).obj for x in recipe['one_of']]
+        try:
+            sub in spell_one_of(vals, recipe.get('one_of_as'))       # Python's own "in" on a fresh container
+        except Exception as e:
+            out['member_exc'] = e
+    if vals is not None and sub not in vals:
+        failed.append('value')
+    # "validate: a callable or list of callables ... If one or more return False or raise an exception, the Check will fail"
+    if recipe['validate']:
+        for n in recipe['validate']:
+            try:
+                ok_ = VALIDATORS[n](sub)
+            except Exception:
+                ok_ = False
+                out['validator_raised'] = True
+            if not ok_:
+                failed.append('validate:' + n)
+    elif not any(recipe[k] for k in ('type', 'instance_of', 'validate')) and vals is None:
+        # "if all check conditions are left unset, Check defaults to performing a basic truthy check"
+        if not sub:
+            failed.append('truthy')
+    # "instance_of: a type or sequence of types to be checked with isinstance()"
+    if recipe['instance_of'] and not isinstance(sub, tuple(CHECK_TYPES[n] for n in recipe['instance_of'])):
+        failed.append('instance_of')
+    return out
+
+
+def eval_check(spec, recipe, target, ref, where):
+    """one evaluation of the Check against the reference; returns the outcome tag"""
     try:
         got = ('ok', glom.glom(target, spec))
     except CheckError as e:
         got = ('check', e)
     except GlomError as e:
-        got = ('glomerr', e)
+        got = ('raise', e) if type(e).__name__.startswith('GlomError.wrap(') else ('glomerr', e)
     except Exception as e:
-        raise Mismatch('check-unexpected-exception', '%s: %s: %r' % (where, type(e).__name__, e))
-    if not access_ok:
+        got = ('raise', e)
+    if not ref['access']:
         if got[0] != 'glomerr' or not isinstance(got[1], PathAccessError):
             raise Mismatch('check-access', '%s: sub-spec access fails, expected PathAccessError, got %r' % (where, got))
-        return
+        return got[0]
+    failed, sub = ref['failed'], ref['sub']
+    if ref['member_exc'] is not None:
+        # Python's own `sub in one_of` raises: a failed condition (statement) or that exception ("in"), see ASSUMPTIONS
+        if got[0] == 'raise' and isinstance(got[1], type(ref['member_exc'])):
+            return 'member-raise'
+        if got[0] == 'check' and recipe['default'] is None:
+            return got[0]
+        if got[0] == 'ok' and recipe['default'] is not None and values_equal(got[1], ref_default(recipe['default'], sub)):
+            return got[0]
+        raise Mismatch('check-membership-raises', '%s: `%r in one_of` raises %r; expected a failed condition or that exception, '
+                       'got %r' % (where, sub, ref['member_exc'], got))
+    if got[0] == 'raise':
+        raise Mismatch('check-unexpected-exception', '%s: conditions failed: %r; glom raised %s: %r'
+                       % (where, failed, type(got[1]).__name__, got[1]))
     if not failed:
         if got[0] != 'ok' or got[1] is not target and got[1] != target:
             raise Mismatch('check-false-reject', '%s: all conditions hold, got %r' % (where, got))
@@ -689,13 +939,87 @@ def check_checkkw(recipe, ctx):
             raise Mismatch('check-false-accept', '%s: conditions failed %r, got %r' % (where, failed, got))
         if len(got[1].msgs) != len(failed):
             raise Mismatch('check-error-list', '%s: failed conditions %r, CheckError lists %r' % (where, failed, got[1].msgs))
-    ctx.outcome([got[0], repr(spec)[:100]])
+    return got[0]
+
+
+def check_checkkw(recipe, ctx):
+    trecipes = recipe['targets'] if 'targets' in recipe else [recipe['target']]
+    targets = [build_ctarget(t) for t in trecipes]
+    log = []
+    try:
+        spec, kw, text = build_check(recipe, log)
+    except HarnessBug:
+        raise
+    except Exception as e:
+        raise Mismatch('check-construction', 'Check(%s ...) for recipe %r raised %r'
+                       % ('' if recipe['sub'] is None else 'T[%r],' % recipe['sub'],
+                          dict((k, v) for k, v in recipe.items() if k not in ('targets', 'target')), e))
+    refs = [ref_check(recipe, t) for t in targets]
+    first = refs[0]
+    # -- classes (measured on the reference, never on what glom did)
+    ctx.label('pass' if first['access'] and not first['failed'] else
+              ('fail-%d' % min(len(first['failed']), 3) if first['access'] else 'access-fail'),
+              'default' if recipe['default'] is not None else 'no-default')
+    if any(r['validator_raised'] for r in refs):
+        ctx.label('validator-raises')
+    if any(r['member_exc'] is not None for r in refs):
+        ctx.label('membership-raises')
+    one_of_as = recipe.get('one_of_as') or 'list'
+    if recipe['one_of'] is not None:
+        ctx.label('one_of-' + one_of_as)
+        value_rejected = [r['access'] and r['member_exc'] is None and 'value' in r['failed'] for r in refs]
+        if len(recipe['one_of']) == 1 and one_of_as in UNINDEXABLE and recipe['default'] is None and any(value_rejected):
+            # exactly one value, in a container without [0], and the rejection has to be reported by CheckError
+            ctx.label('one_of-single-unindexable-reject')
+        if one_of_as in ONE_SHOT and len(targets) >= 2:
+            ctx.label('one_of-oneshot-reused')
+            if any(r['access'] and 'value' not in r['failed'] for r in refs[1:]):
+                ctx.label('one_of-oneshot-later-hit')          # an evaluation after the first must find a listed value
+            if recipe['default'] is None and any(value_rejected):
+                ctx.label('one_of-oneshot-reject-no-default')
+    for k in ('type', 'instance_of'):
+        if recipe[k] and len(recipe[k]) == 1 and recipe[k][0] in ITERABLE_CLASSES and recipe.get(k + '_as') != 'iter':
+            ctx.label('bare-iterable-class')
+            # both outcomes of the condition are of interest: an instance of the class, and something else
+            ctx.label('bare-iterable-class-' + ('fails' if first['access'] and k in first['failed'] else 'holds-or-na'))
+            break
+    if len(targets) >= 2:
+        ctx.label('evaluated-again')
+    ctx.nontrivial(len([k for k in kw if k != 'default']) >= 2 or (first['failed'] and recipe['default'] is not None)
+                   or len(targets) >= 2)
+    # -- the same Check object on every target in turn
+    outcomes = []
+    for i, (target, ref) in enumerate(zip(targets, refs)):
+        where = 'spec=%s target=%r%s' % (text, target, '' if i == 0 else ' (evaluation #%d of the same Check object, after %r)'
+                                         % (i + 1, targets[:i]))
+        try:
+            outcomes.append(eval_check(spec, recipe, target, ref, where))
+        except Mismatch as mm:
+            if i == 0:
+                raise
+            # does a freshly built, equal Check decide this target as expected?  Then the earlier evaluations changed
+            # the decision (bucket name only: the expectation itself never depends on glom)
+            try:
+                eval_check(build_check(recipe, [])[0], recipe, target, ref, where)
+            except Mismatch:
+                raise mm
+            raise Mismatch('check-reuse', '%s | a freshly built Check decides this target as expected' % (mm,))
+    ctx.outcome([outcomes, text[:100]])
 
 
 SUBS = [
     Sub('bool', check_bool, gen=gen_bool, quick=8000, thorough=30000,
-        floors={'exp-ok': 0.2, 'exp-rej': 0.2, 'short-circuit': 0.02, 'build-ops': 0.2}),
-    Sub('switch', check_switch, gen=gen_switch, quick=3000, thorough=10000, floors={'exp-ok': 0.2, 'exp-rej': 0.05}),
-    Sub('checkkw', check_checkkw, gen=gen_check, quick=4000, thorough=15000, floors={'pass': 0.05, 'default': 0.2}),
+        floors={'exp-ok': 0.2, 'exp-rej': 0.2, 'short-circuit': 0.02, 'build-ops': 0.2,
+                'cmp-raises': 0.07, 'cmp-raises-recovered': 0.04, 'match-default': 0.11}),
+    Sub('switch', check_switch, gen=gen_switch, quick=3000, thorough=10000,
+        floors={'exp-ok': 0.2, 'exp-rej': 0.05, 'cmp-raises': 0.15, 'cmp-raises-recovered': 0.1}),
+    Sub('checkkw', check_checkkw, gen=gen_check, quick=4000, thorough=15000,
+        floors={'pass': 0.05, 'default': 0.2, 'one_of-single-unindexable-reject': 0.02, 'bare-iterable-class': 0.09,
+                'bare-iterable-class-fails': 0.05, 'bare-iterable-class-holds-or-na': 0.028, 'one_of-list': 0.015,
+                'one_of-tuple': 0.015, 'one_of-set': 0.015, 'one_of-frozenset': 0.015, 'one_of-dict': 0.015,
+                'one_of-keys': 0.015}),
+    Sub('checkreuse', check_checkkw, gen=gen_checkreuse, quick=1500, thorough=6000,
+        floors={'one_of-oneshot-later-hit': 0.28, 'one_of-oneshot-reject-no-default': 0.15, 'one_of-iter': 0.25,
+                'one_of-gen': 0.18, 'pass': 0.15}),
     Sub('reuse', check_reuse, gen=gen_reuse, quick=800, thorough=4000),
 ]
